@@ -35,7 +35,7 @@ func init() {
 			"fails from offset f on (sticky, non-EOF), every f (capped) x fragmentation. non-trivial = the failure offset lies inside the " +
 			"stream; distinct by op text",
 		Gen: func(r *Rng, tier string, emit func(Case)) {
-			nw, nr := 150, 150
+			nw, nr := 100, 100
 			if tier == "thorough" {
 				nw, nr = 3000, 3000
 			}
